@@ -492,6 +492,14 @@ class TableEval:
                 return self.env[fnode.id].fi
             if fnode.id in self.fi.module.functions:
                 return self.fi.module.functions[fnode.id]
+            # NAME = lru_cache(...)(function) / cache(function): the function (a memo of a pure function of its
+            # arguments is that function; that it is pure is R13.6's / R00.memo's subject)
+            e = self.fi.module.globals.get(fnode.id)
+            if isinstance(e, ast.Call) and len(e.args) == 1 and isinstance(e.args[0], ast.Name) and not e.keywords:
+                deco = e.func.func if isinstance(e.func, ast.Call) else e.func
+                dn = deco.attr if isinstance(deco, ast.Attribute) else (deco.id if isinstance(deco, ast.Name) else "")
+                if dn in ("lru_cache", "cache") and e.args[0].id in self.fi.module.functions:
+                    return self.fi.module.functions[e.args[0].id]
             if self.prog is not None:
                 r = self.prog.resolve_global(self.fi.module, fnode.id)
                 if r and r[0] == "func":
